@@ -5,6 +5,7 @@
 use std::{borrow::Cow, collections::BTreeMap};
 
 use ruma_common::{
+    room_version_rules::RedactionRules,
     serde::{from_raw_json_value, ignore_invalid_vec_items},
     space::SpaceRoomJoinRule,
     OwnedRoomId,
@@ -16,14 +17,22 @@ use serde::{
 };
 use serde_json::{value::RawValue as RawJsonValue, Value as JsonValue};
 
-use crate::{EmptyStateKey, PrivOwnedStr};
+use crate::{
+    EmptyStateKey, EventContent, PrivOwnedStr, RedactContent, RedactedStateEventContent,
+    StateEventType, StaticEventContent,
+};
 
 /// The content of an `m.room.join_rules` event.
 ///
 /// Describes how users are allowed to join the room.
 #[derive(Clone, Debug, Serialize, EventContent)]
 #[cfg_attr(not(ruma_unstable_exhaustive_types), non_exhaustive)]
-#[ruma_event(type = "m.room.join_rules", kind = State, state_key_type = EmptyStateKey)]
+#[ruma_event(
+    type = "m.room.join_rules",
+    kind = State,
+    state_key_type = EmptyStateKey,
+    custom_redacted
+)]
 pub struct RoomJoinRulesEventContent {
     /// The type of rules used for users wishing to join this room.
     #[ruma_event(skip_redaction)]
@@ -58,6 +67,52 @@ impl<'de> Deserialize<'de> for RoomJoinRulesEventContent {
         let join_rule = JoinRule::deserialize(deserializer)?;
         Ok(RoomJoinRulesEventContent { join_rule })
     }
+}
+
+impl RedactContent for RoomJoinRulesEventContent {
+    type Redacted = RedactedRoomJoinRulesEventContent;
+
+    fn redact(self, _rules: &RedactionRules) -> Self::Redacted {
+        RedactedRoomJoinRulesEventContent { join_rule: self.join_rule }
+    }
+}
+
+/// Redacted form of [`RoomJoinRulesEventContent`].
+#[derive(Clone, Debug, Serialize)]
+#[cfg_attr(not(ruma_unstable_exhaustive_types), non_exhaustive)]
+pub struct RedactedRoomJoinRulesEventContent {
+    /// The type of rules used for users wishing to join this room.
+    #[serde(flatten)]
+    pub join_rule: JoinRule,
+}
+
+// `JoinRule` reads the raw JSON of the whole content to find its tag, so it cannot be
+// deserialized through the buffered map that a derived `#[serde(flatten)]` field hands out;
+// deserialize it from the content directly, like `RoomJoinRulesEventContent` does.
+impl<'de> Deserialize<'de> for RedactedRoomJoinRulesEventContent {
+    fn deserialize<D>(deserializer: D) -> Result<Self, D::Error>
+    where
+        D: Deserializer<'de>,
+    {
+        let join_rule = JoinRule::deserialize(deserializer)?;
+        Ok(RedactedRoomJoinRulesEventContent { join_rule })
+    }
+}
+
+impl EventContent for RedactedRoomJoinRulesEventContent {
+    type EventType = StateEventType;
+
+    fn event_type(&self) -> Self::EventType {
+        StateEventType::RoomJoinRules
+    }
+}
+
+impl StaticEventContent for RedactedRoomJoinRulesEventContent {
+    const TYPE: &'static str = RoomJoinRulesEventContent::TYPE;
+}
+
+impl RedactedStateEventContent for RedactedRoomJoinRulesEventContent {
+    type StateKey = EmptyStateKey;
 }
 
 impl RoomJoinRulesEvent {
